@@ -110,12 +110,25 @@ def runCase (s : DSt) : String :=
     match nm[j]? with
     | some b => (nm.take j).any (fun a => decide (b.e < a.s))
     | none => false)).length
+  let hullBad := (real.filter (fun t => !t.isIgnored && !judgeHull cfg ms t)).length
+  let pls := (real.filter (!·.isIgnored)).filterMap (placementOf cfg ms)
+  let plc := fun (k : Nat) => (pls.filter (· == k)).length
+  -- an out-of-order tag whose NAME arrived late in the real match stream (its name ends before the name of an
+  -- earlier match starts) is the late-match defect; the test looks at the match stream only, not at tags.rs
+  let lateNames := (List.range nm.length).filterMap (fun j =>
+    match nm[j]? with
+    | some b => if (nm.take j).any (fun a => decide (b.e < a.s)) then some b else none
+    | none => none)
+  let ordClause := match judgeOrderPair (real.filter (!·.isIgnored)) with
+    | some (_, b) => if lateNames.contains b.name then "order-late-match" else "order"
+    | none => "order"
   let j := match s.err, fails, ord with
     | some e, _, _ => s!"FAIL:error:generate_tags_failed_or_panicked:{e}".replace " " "_"
     | none, f :: _, _ => f.replace " " "_"
-    | none, [], some o => s!"FAIL:order:{o}".replace " " "_"
+    | none, [], some o => s!"FAIL:{ordClause}:{o}".replace " " "_"
     | none, [], none =>
-      if docsBad > 0 then s!"FAIL:docs:{docsBad}_tags"
+      if hullBad > 0 then s!"FAIL:hull:{hullBad}_tags_whose_range_is_not_the_hull_of_tagged_node_and_name"
+      else if docsBad > 0 then s!"FAIL:docs:{docsBad}_tags"
       else if kindBad > 0 then s!"FAIL:kind:{kindBad}_tags_with_wrong_is_definition_or_syntax_type"
       else match loc with
         | some l => s!"FAIL:local:{l}".replace " " "_"
@@ -124,7 +137,7 @@ def runCase (s : DSt) : String :=
   let lz := match lossy with
     | [] => "-"
     | m :: _ => m.replace " " "_"
-  s!"{s.id} corr={corr.replace " " "_"} vars={vars} judge={j} tags={real.length} matches={ms.length} skipped={skipped} lossy={lossy.length} lossymsg={lz} multi={multi} nonascii={na} cfgbad={if cfg.invalid then 1 else 0} mrdocs={(ms.map (fun m => (m.caps.filter (fun c => some c.idx == cfg.docIdx && decide (c.sp.row < c.ep.row))).length)).foldl (· + ·) 0} withdocs={(real.filter (fun t => t.docs.isSome)).length} capi={(capiCheck s).replace " " "_"} names={nm.length} arrbad={arrbad} late={if noLate {} cfg s.src none ms (initSt s.src) then 0 else 1}"
+  s!"{s.id} corr={corr.replace " " "_"} vars={vars} judge={j} tags={real.length} matches={ms.length} skipped={skipped} lossy={lossy.length} lossymsg={lz} multi={multi} nonascii={na} cfgbad={if cfg.invalid then 1 else 0} plin={plc 0} pleq={plc 1} plfront={plc 2} plbehind={plc 3} mrdocs={(ms.map (fun m => (m.caps.filter (fun c => some c.idx == cfg.docIdx && decide (c.sp.row < c.ep.row))).length)).foldl (· + ·) 0} withdocs={(real.filter (fun t => t.docs.isSome)).length} capi={(capiCheck s).replace " " "_"} names={nm.length} arrbad={arrbad} late={if noLate {} cfg s.src none ms (initSt s.src) then 0 else 1}"
 
 def step (s : DSt) (line : String) : IO DSt := do
   match line.splitOn " " with
